@@ -168,6 +168,7 @@ fn tokens() -> Vec<(String, Vec<u8>)> {
         ("CAN", vec![0x18]),
         ("LF", vec![0x0a]),
         ("DEL", vec![0x7f]),
+        ("?", b"?".to_vec()),
         ("ESC]", b"\x1b]".to_vec()),
         ("a*24", vec![b'a'; 24]),
         ("a*500", vec![b'a'; 500]),
@@ -213,6 +214,24 @@ fn sweep_inputs() -> Vec<(String, Vec<u8>)> {
     for k in [510usize, 511, 512, 513] {
         v.push((format!("OSC[(a;)*{k}]BEL"), [b"\x1b]".to_vec(), b"a;".repeat(k), b"\x07z".to_vec()].concat()));
         v.push((format!("OSC[0;(ab)*{k}]ST"), [b"\x1b]0;".to_vec(), b"ab".repeat(k), b"\x1b\\z".to_vec()].concat()));
+    }
+    // CSI headers that reach the ignore state (private marker after a digit, parameter after an intermediate), then text
+    for h in ["1?", "1<", "1;?", " 1", "1 2", "?1?", "1:?", "$1"] {
+        for f in ["h", "m", "q"] {
+            v.push((format!("CSI {h} {f} then text"), format!("\x1b[{h}{f}AB\x1b[1mC").into_bytes()));
+        }
+    }
+    // two and three OSC strings through one parser: what the first leaves in the offset table must not reach the next
+    let oscs: [&[u8]; 8] = [b"0;title", b"112", b"", b"8;;http://x", b"1337;a;b;c;d", b"52;c;QQ==", b"a;b;c;d;e;f;g;h;i;j;k;l;m;n;o;p;q", b"104"];
+    for a in oscs {
+        for b in oscs {
+            for (tn, term) in [("BEL", &b"\x07"[..]), ("ST", &b"\x1b\\"[..])] {
+                v.push((format!("OSC[{}] OSC[{}] {tn}", String::from_utf8_lossy(a), String::from_utf8_lossy(b)), [b"\x1b]", a, term, b"x\x1b]", b, term, b"y"].concat()));
+            }
+            for c in [&b"112"[..], b"", b"0;t"] {
+                v.push((format!("OSC[{}] OSC[{}] OSC[{}]", String::from_utf8_lossy(a), String::from_utf8_lossy(b), String::from_utf8_lossy(c)), [b"\x1b]", a, b"\x07\x1b]", b, b"\x1b\\\x1b]", c, b"\x07z"].concat()));
+            }
+        }
     }
     let mut values: Vec<u64> = (0..=70000).collect();
     values.extend([99999, 131071, 131072, 655359, 655360, 4294967295, 4294967296, 99999999999, 18446744073709551615]);
